@@ -121,3 +121,10 @@ Theorem c04_split_only_removes_unquoted_ifs : forall e x,
   all_tagged (split_fields e x) = filter (keep (ifs_of e)) (all_tagged (fields x)).
 Proof. exact split_only_removes_unquoted_ifs. Qed.
 Print Assumptions c04_split_only_removes_unquoted_ifs.
+
+(** ~ ~+ ~- ~user ~N: the directory the tilde prefix stands for is exactly one argument (one assigned value),
+    whatever blanks, newlines or glob characters it holds, for every IFS, glob option and directory. *)
+Theorem c04_tilde_exact : forall o e t s, o_tilde o t = Some s ->
+  full_expand o e [WTilde t] = Ok [s] /\ expand_to_str o e [WTilde t] = Ok s.
+Proof. exact tilde_exact. Qed.
+Print Assumptions c04_tilde_exact.
